@@ -244,6 +244,47 @@ func (a *absEval) charEq(r rune) Tri {
 	return U
 }
 
+// charCmp: `char OP k` over the runes of the class.
+func (a *absEval) charCmp(op token.Token, k int64) Tri {
+	c := a.class
+	cmp := func(r int64) bool {
+		switch op {
+		case token.LSS:
+			return r < k
+		case token.LEQ:
+			return r <= k
+		case token.GTR:
+			return r > k
+		}
+		return r >= k
+	}
+	var lo, hi int64
+	switch {
+	case c.Runes != nil:
+		lo, hi = int64(c.Runes[0]), int64(c.Runes[0])
+		for _, r := range c.Runes {
+			if int64(r) < lo {
+				lo = int64(r)
+			}
+			if int64(r) > hi {
+				hi = int64(r)
+			}
+		}
+	case c.Name == "LIT":
+		lo, hi = 0x21, 0x7e
+	default:
+		lo, hi = 0, 0x10FFFF
+	}
+	// the comparisons are monotone in the rune: the two ends decide
+	switch {
+	case cmp(lo) && cmp(hi):
+		return T
+	case !cmp(lo) && !cmp(hi):
+		return F
+	}
+	return U
+}
+
 // isCurByte: json[i:][0] or json[i] with i the loop position at the start of the iteration.
 func (m *Machine) isCurByte(t Term) bool {
 	ix, ok := t.(TIndex)
@@ -372,6 +413,33 @@ func (a *absEval) atom(t Term) (Tri, bool) {
 				if rr, ok := runeOf(r); ok && (op == token.EQL || op == token.NEQ) {
 					v := a.charEq(rr)
 					if op == token.NEQ {
+						v = triNot(v)
+					}
+					return v, true
+				}
+			}
+			// char OP k: an order comparison of the current rune, decided over the members of the class (LIT is printable ASCII
+			// 0x21..0x7e without the specials; OTHER is everything else and stays open)
+			if m.isChar(l) && (op == token.LSS || op == token.LEQ || op == token.GTR || op == token.GEQ) {
+				if k, ok := constInt(r); ok {
+					return a.charCmp(op, k), true
+				}
+			}
+			// json[i] < 0x80: the current rune is ASCII — by class
+			if m.isCurByte(l) {
+				if k, ok := constInt(r); ok && ((k == 0x80 && (op == token.LSS || op == token.GEQ)) || (k == 0x7f && (op == token.LEQ || op == token.GTR))) {
+					v := U
+					switch a.class.Name {
+					case "FFFD", "BADUTF8":
+						v = F // first byte 0xEF / a byte that cannot start or continue a sequence here: >= 0x80
+					case "OTHER":
+						v = U // control characters and everything beyond ASCII
+					case "EMPTY":
+						v = F // no byte there (the loop condition keeps the machine from asking): what the decoder says about it is decided on the decoding branch
+					default:
+						v = T
+					}
+					if op == token.GEQ || op == token.GTR {
 						v = triNot(v)
 					}
 					return v, true
